@@ -39,6 +39,13 @@ CLAIMED['C05'] = dict(category='other', technique=_T,
 CLAIMED['C16'] = dict(category='other', technique='ground obligations over the source (write inventory, frozen classes) + ' + _T,
     text='Every run: all AST classes frozen, metadata init=False/eq=False, heap writes in the source are exactly W1/W2/W3 and the forced in-place narrowing is requested only by operand validators (fails closed). Proved: cast() never writes to its receiver (self or copy) for all 11 classes; the verified constructors narrow exactly what their contracts declare (callers get frame obligations). Bounded: deep snapshots (structure, types, metadata, hash) around API calls and sequences; but() identity/copy clauses. One defect repaired (F14).',
     note='frame obligations of the rewriting functions are not yet under contract; metadata contents outside the value model', ref='DESIGN.md section 6, C16')
+for _pid, _txt in (('C08', 'simplify vs reference evaluation on corpus x valuation grid; type, validity, vacuous-predicate clause; open findings F8, F9'),
+                   ('C09', 'split_and: conjunction equivalence on valuations, shapes of the parts, no variable escape, ValueError only for unsatisfiable inputs'),
+                   ('C10', 'refactor_reference: conjunction equivalence, alias-freeness of f1, no variable escape, identity clause, call-order independence'),
+                   ('C13', 'negate/join, this<->var replacement and event alias rewrite vs reference evaluation'),
+                   ('C14', 'rewriting functions total with documented result kinds over every built-in function x argument shape; three crashes repaired by fix: commits')):
+    CLAIMED[_pid] = dict(category='exploration', technique='bounded stand-in only at this commit: native contract/oracle evaluation of the real functions on a generated corpus (contracts for these functions not yet discharged deductively)',
+        text='BOUNDED, nothing proved: ' + _txt, note='reference semantics bounded.evaluator (A-SEM); corpus and valuation grid sizes in the evidence', ref='DESIGN.md section 6')
 NOT_YET = {}
 
 
